@@ -3,7 +3,7 @@
    symengine expressions are dumped expanded and sorted, renaming changes the order), and the
    check that is evaluated inside Coq for every analysed program. *)
 From Coq Require Import List String QArith Qcanon ZArith Bool Arith.
-From Polar Require Import Qcx Dist Syntax Sem Types Poly PassIf.
+From Polar Require Import Qcx Dist Syntax Sem Types Poly PassIf PassIfAux.
 Import ListNotations.
 Local Open Scope Qc_scope.
 
@@ -79,20 +79,28 @@ Fixpoint first_diff (l l' : list gassign) : nat :=
   | _, _ => O
   end.
 
-(* [defined; init equal; body equal; mutually_exclusive flags as recognised; wf hypothesis] *)
-Definition pass_if_check (k : nat) (p : prog) (exp : flatprog) (flags : list bool) : list bool :=
-  match if_flatten_prog_old k p with
+(* nr = false: the rule of the tree as it stands (if_flatten_prog_old, hypothesis wf_prog);
+   nr = true: unconditional auxiliary assignments (if_flatten_prog, hypothesis aux_ok_prog).
+   [defined; init equal; body equal; mutually_exclusive flags as recognised; hypothesis] *)
+Definition model (nr : bool) (k : nat) (p : prog) : option (flatprog * nat) :=
+  if nr then if_flatten_prog k p else if_flatten_prog_old k p.
+Definition hyp (nr : bool) (p : prog) : bool := if nr then aux_ok_prog p else wf_prog p.
+Definition pass_if_check (nr : bool) (k : nat) (p : prog) (exp : flatprog) (flags : list bool) : list bool :=
+  let fl := list_eqn Bool.eqb (flags_block (p_init p) ++ flags_block (p_body p)) flags in
+  match model nr k p with
   | Some (fp, _) =>
-      [true; list_eqn ga_eqn (fp_init fp) (fp_init exp); list_eqn ga_eqn (fp_body fp) (fp_body exp);
-       list_eqn Bool.eqb (flags_block (p_init p) ++ flags_block (p_body p)) flags; wf_prog p]
-  | None => [false; false; false; list_eqn Bool.eqb (flags_block (p_init p) ++ flags_block (p_body p)) flags; wf_prog p]
+      [true; list_eqn ga_eqn (fp_init fp) (fp_init exp); list_eqn ga_eqn (fp_body fp) (fp_body exp); fl; hyp nr p]
+  | None => [false; false; false; fl; hyp nr p]
   end.
 
 (* (model init length, Polar init length, first differing index), same for the body, final counter *)
-Definition pass_if_diag (k : nat) (p : prog) (exp : flatprog) : list nat :=
-  match if_flatten_prog_old k p with
+Definition pass_if_diag (nr : bool) (k : nat) (p : prog) (exp : flatprog) : list nat :=
+  match model nr k p with
   | Some (fp, k') =>
       [List.length (fp_init fp); List.length (fp_init exp); first_diff (fp_init fp) (fp_init exp);
        List.length (fp_body fp); List.length (fp_body exp); first_diff (fp_body fp) (fp_body exp); k']
   | None => []
   end.
+(* the parts of the new rule's hypothesis, for the report: [wf; mass; live] *)
+Definition aux_parts (p : prog) : list bool :=
+  [wf_prog p; mass_block (p_init p) && mass_block (p_body p); live_ok (p_init p) && live_ok (p_body p)].
